@@ -279,6 +279,12 @@ func c04StmtTie(e *env, n int) {
 	}
 	var items []*item
 	for i, r := range res {
+		if len(r) > 0 && strings.Contains(r[0], "Stack overflow") {
+			// the extracted model ran out of OCaml stack on this statement (a unary-nat loop bound): outside what the
+			// model runner can evaluate, not a disagreement; counted and skipped
+			e.res.Histogram["minijs-stmt:model-stack-overflow-skipped"]++
+			continue
+		}
 		if len(r) < 3 || strings.HasPrefix(r[0], "!") {
 			e.res.Fail(hx.Violation{Kind: "mismatch", What: "model op minijs_stmt failed", Case: reqs[i], Observed: fmt.Sprint(r)}, "")
 			continue
